@@ -687,7 +687,10 @@ pub fn run_replicas(plan: &GatherPlan, mode: Mode) -> (crate::engine::RunResult,
                         let unreg_twin = |r: &Registry| if is_counter { twin_c.clone().map(|c| r.unregister(Box::new(c))) } else { Some(r.unregister(Box::new(twin.clone()))) };
                         if let Some(Ok(())) = reg_twin(&reg) {
                             let _ = unreg_twin(&reg);
-                            let admitted = if is_counter {
+                            // the third collector is of the same kind in one half of the plans and of the
+                            // other kind in the other half (another help text is refused either way)
+                            let third_counter = if plan.hash_seeds[0] % 2 == 0 { is_counter } else { !is_counter };
+                            let admitted = if third_counter {
                                 IntCounter::with_opts(with_value("zz_third", "another help text")).map(|c| { c.inc_by(7_700_321); reg.register(Box::new(c)).is_ok() }).unwrap_or(false)
                             } else {
                                 IntGauge::with_opts(with_value("zz_third", "another help text")).map(|g| { g.set(7_700_321); reg.register(Box::new(g)).is_ok() }).unwrap_or(false)
